@@ -88,7 +88,7 @@ def run_rig(script, name, *, timeout=300, bindir=None, strace=None, keep_output=
                 try:
                     e = json.loads(line)
                 except json.JSONDecodeError:
-                    if any(x.get("e") == "Done" for x in ev[-50:]):
+                    if any(x.get("e") == "Done" for x in ev):
                         break
                     raise util.ToolError("rig run %s: unparsable trace line before Done: %s" % (name, line[:120]))
                 ev.append(e)
@@ -97,7 +97,7 @@ def run_rig(script, name, *, timeout=300, bindir=None, strace=None, keep_output=
             f.write(p.stdout or "")
     if p.returncode not in (0,):
         raise util.ToolError("rig run %s failed rc=%s:\n%s" % (name, p.returncode, p.stdout[-3000:]))
-    if not any(e.get("e") == "Done" for e in ev[-50:]):
+    if not any(e.get("e") == "Done" for e in ev):
         raise util.ToolError("rig run %s: trace incomplete (%d events)\n%s" % (name, len(ev), p.stdout[-2000:]))
     return ev, d, p.stdout
 
